@@ -234,7 +234,7 @@ def run(ctx):
     if T:
         vlib.tlc_mc(ctx, "IPSet", "IPSet_design_host3.cfg", label="W=4, arbitrary host bits, ordered lists <= 3", timeout=1200)
         vlib.tlc_mc(ctx, "IPSet", "IPSet_design_w5.cfg", label="W=5, masked, ordered lists <= 3", timeout=1200)
-        vlib.tlc_mc(ctx, "IPSet", "IPSet_design_w5.cfg", label="W=5, host bits, lists <= 6 (simulation)", simulate=4000, depth=12,
+        vlib.tlc_mc(ctx, "IPSet", "IPSet_design_w5.cfg", label="W=5, host bits, lists <= 6 (simulation)", simulate=1000, depth=12, workers=4,
                     cfg_text=cfg("IPSet_design_w5.cfg", MaxLen="6", HostBits="TRUE"))
     for c, what in (("IPSet_pinned_longer.cfg", "merge keeps the longer of two equal-base prefixes"),
                     ("IPSet_pinned_nomask.cfg", "Masked() omitted")):
